@@ -500,6 +500,20 @@ func (e *Evaluator) call(vals map[ssa.Value]Val, c *ssa.Call, env Env, depth int
 	switch callee.String() {
 	case "fmt.Errorf", "errors.New":
 		return Val{K: Err}
+	case "(time.Duration).Minutes", "(time.Duration).Seconds", "(time.Duration).Hours":
+		a := e.get(vals, cc.Args[0])
+		if a.K == Const && a.C.Kind() == constant.Int {
+			unit := map[string]int64{"Minutes": 60e9, "Seconds": 1e9, "Hours": 3600e9}[callee.Name()]
+			return Val{K: Const, C: constant.BinaryOp(constant.ToFloat(a.C), token.QUO, constant.ToFloat(constant.MakeInt64(unit)))}
+		}
+		return Val{}
+	case "(time.Duration).Milliseconds", "(time.Duration).Microseconds", "(time.Duration).Nanoseconds":
+		a := e.get(vals, cc.Args[0])
+		if a.K == Const && a.C.Kind() == constant.Int {
+			unit := map[string]int64{"Milliseconds": 1e6, "Microseconds": 1e3, "Nanoseconds": 1}[callee.Name()]
+			return Val{K: Const, C: constant.BinaryOp(a.C, token.QUO_ASSIGN, constant.MakeInt64(unit))}
+		}
+		return Val{}
 	case "math/bits.Len", "math/bits.Len32", "math/bits.Len64":
 		a := e.get(vals, cc.Args[0])
 		if a.K == Const && a.C.Kind() == constant.Int && constant.Sign(a.C) >= 0 {
